@@ -29,7 +29,8 @@ RULE = (
     "threshold, or |E-thr| < 3 dB, or width != 2."
 )
 MUST_HIT = ["boundary_sw1", "boundary_sw2", "boundary_sw4", "any_vs_mix_disagree", "negative_index",
-            "reject_index", "reject_name", "mono_ignores_selection", "zero_window", "window_length_around_power_of_two", "typed_or_other_container", "window_of_100000_samples"]
+            "reject_index", "reject_name", "mono_ignores_selection", "zero_window", "window_length_around_power_of_two", "typed_or_other_container", "window_of_100000_samples",
+            "validator_sequence", "same_object_twice", "bytearray_refilled_in_place"]
 ASSUMPTIONS = [
     "for |x|=10^k constant windows numpy's sqrt/mean/log10 are exact on this build (verified at design time; a mismatch would show as a violation of the boundary cases, to be investigated)",
     "decision not compared when the exact energy lies within 1e-9 dB of the threshold",
@@ -42,6 +43,13 @@ POWS = {1: 2, 2: 4, 4: 9}
 
 def build(case):
     sw, ch = case["sw"], case["ch"]
+    if "segments" in case:
+        import array
+
+        vals = []
+        for v_, n_ in case["segments"]:
+            vals += [v_] * (n_ * ch)
+        return array.array({1: "b", 2: "h", 4: "i"}[sw], vals).tobytes()
     if "huge" in case:
         # a very long window: a short motif repeated (sums of squares beyond 2**31 / 2**63)
         motif, n = case["huge"]
@@ -117,7 +125,46 @@ def resolve_thr(spec, E):
     return float(E) + x
 
 
+CRC_PAIR = ("03000400feff0400000001000000fdff", "284e294e244e284e284e204e204e983a")  # equal length, equal crc32
+
+
+def check_sequence(case, rec):
+    """One validator instance judging a sequence of windows: every verdict must be what a fresh
+    validator says about that content - also for the same object handed over twice, for a bytearray
+    refilled in place, and for two different windows that share length and CRC-32."""
+    sw, ch, uc, thr = case["sw"], case["ch"], case.get("uc"), case["thr"]
+    v = AudioEnergyValidator(thr, sw, ch, use_channel=uc)
+    buf = None
+    classes = {"validator_sequence"}
+    verdicts = []
+    for step in case["seq"]:
+        kind, payload = step
+        raw = bytes.fromhex(payload) if isinstance(payload, str) else b"".join(int(x).to_bytes(sw, "little", signed=True) for x in payload)
+        if kind == "same_twice":
+            objs = [raw, raw]
+            classes.add("same_object_twice")
+        elif kind == "refill":
+            if buf is None or len(buf) != len(raw):
+                buf = bytearray(len(raw))
+            buf[:] = raw          # the caller's reusable buffer, new content
+            objs = [buf]
+            classes.add("bytearray_refilled_in_place")
+        else:
+            objs = [raw]
+        E = oracles.energy_db(raw, sw, ch, uc if ch > 1 else None)
+        for o in objs:
+            got = bool(v.is_valid(o))
+            verdicts.append(got)
+            if abs(E - Decimal(thr)) > Decimal("1e-9") and got != (E >= Decimal(thr)):
+                raise Violation(
+                    f"verdict {got} for a window of {float(E):.6f} dB at threshold {thr} (step {len(verdicts)} of a "
+                    f"sequence judged by one validator: {kind})", case)
+    rec.note(case, len(set(verdicts)) > 1, classes, out=verdicts)
+
+
 def check_case(case, rec):
+    if "seq" in case:
+        return check_sequence(case, rec)
     sw, ch, uc = case["sw"], case["ch"], case.get("uc")
     data = build(case)
     classes = set()
@@ -197,6 +244,13 @@ def explicit_cases():
         {"sw": 2, "ch": 3, "vals": [1, 2, 3], "uc": -4, "thr": ["abs", 0.0], "thr2": ["abs", 0.0]},
         {"sw": 4, "ch": 2, "vals": [1, 2], "uc": "left", "thr": ["abs", 0.0], "thr2": ["abs", 0.0]},
         {"sw": 1, "ch": 1, "huge": [[-128], 140000], "uc": None, "thr": ["abs", 30.0], "thr2": ["rel", -0.5]},
+        # not uniform: 65536 silent samples, then a hundred loud ones (41.1 dB overall)
+        {"sw": 2, "ch": 1, "segments": [[0, 65536], [3000, 100]], "uc": None, "thr": ["rel", 0.5], "thr2": ["rel", -0.5]},
+        {"sw": 1, "ch": 2, "segments": [[0, 131072], [100, 64], [-100, 64]], "uc": "mix", "thr": ["rel", 0.5], "thr2": ["rel", -0.5]},
+        {"sw": 2, "ch": 1, "seq": [["plain", CRC_PAIR[0]], ["plain", CRC_PAIR[1]], ["plain", CRC_PAIR[0]]], "uc": None, "thr": 50.0},
+        {"sw": 2, "ch": 1, "seq": [["plain", CRC_PAIR[1]], ["plain", CRC_PAIR[0]]], "uc": None, "thr": 50.0},
+        {"sw": 2, "ch": 2, "seq": [["same_twice", [100, -100, 90, 80]], ["same_twice", [20000, -20000, 15000, 9000]], ["refill", [1, 2, 3, 4]],
+                                   ["refill", [30000, 30000, -30000, 30000]], ["refill", [0, 0, 0, 0]]], "uc": "mix", "thr": 60.0},
         {"sw": 1, "ch": 2, "huge": [[100, -100, 99, 3], 230000], "uc": None, "thr": ["rel", -1e-3], "thr2": ["abs", 0.0]},
         {"sw": 2, "ch": 1, "huge": [[-32768, 32767], 140000], "uc": None, "thr": ["rel", -1e-3], "thr2": ["rel", 0.5]},
         {"sw": 4, "ch": 2, "huge": [[-2147483648, 2147483647, 5, -7], 100000], "uc": "mix", "thr": ["rel", -1e-3], "thr2": ["rel", 3.0]},
@@ -228,6 +282,13 @@ def thr_spec():
 def strategy(draw, maxn):
     sw = draw(st.sampled_from([1, 2, 4]))
     ch = draw(st.integers(1, 4))
+    if draw(rarely(12)):
+        n = draw(st.integers(1, 6))
+        win = st.lists(sample_value(sw), min_size=n * ch, max_size=n * ch)
+        steps = draw(st.lists(st.tuples(st.sampled_from(["plain", "same_twice", "refill", "refill"]), win).map(list),
+                              min_size=2, max_size=6))
+        return {"sw": sw, "ch": ch, "seq": steps, "uc": draw(st.sampled_from([None, "mix", 0])) if ch > 1 else None,
+                "thr": draw(st.floats(-20, 20 * sw * 2 + 10, allow_nan=False))}
     uc = draw(st.one_of(
         st.sampled_from(NAMES_OK), st.integers(-ch - 2, ch + 1), st.integers(-ch, ch - 1),
         st.sampled_from(NAMES_OK), st.sampled_from(NAMES_BAD)))
